@@ -9,7 +9,8 @@ workers, and process exit stops every worker wherever it is.
 The order of a worker's steps comes from `S4V.Gen.Tmp` (regenerated from the
 source): whether creation+listing happen under the NAMED_TEMP_FILES lock
 (atomic w.r.t. the handler) and whether the file is deleted before or after
-the final summary is sent.
+the final summary is sent, and whether a creation attempted after the handler
+ran is refused (`createRefusedAfterHandler`, the NAMED_TEMP_FILES_CLOSED flag).
 -/
 import S4V.Gen.Tmp
 
@@ -78,9 +79,32 @@ def run (underLock dropFirst : Bool) (s : St) : List Ev → Option St
     | some s' => run underLock dropFirst s' es
     | none => none
 
-/-- the source's order of operations -/
-def stepGen := step createUnderLock dropBeforeSummary
-def runGen := run createUnderLock dropBeforeSummary
+/-- the event `e`, taken in state `s`, is a worker leaving phase `.start` (that is: about to create its
+temporary file) although the SIGINT handler has already run -/
+def lateCreate (s : St) : Ev → Bool
+  | .work i => s.handlerRan && (s.phase.getD i .done == .start)
+  | _ => false
+
+/-- `step` with the closed flag (`NAMED_TEMP_FILES_CLOSED`): the handler sets the flag under the
+NAMED_TEMP_FILES lock; a worker that reaches `decompress_to_ntf` afterwards finds it set (under the same
+lock), gets an error instead of a file and ends (phase `.done`, nothing created, nothing listed).
+Every other step is `step`'s. -/
+def stepC (ul df : Bool) (s : St) : Ev → Option St
+  | .work i =>
+    if s.exited then none
+    else if s.handlerRan && (s.phase.getD i .done == .start) then some { s with phase := s.phase.set i .done }
+    else workerStep ul df s i
+  | e => step ul df s e
+
+def runC (ul df : Bool) (s : St) : List Ev → Option St
+  | [] => some s
+  | e :: es => match stepC ul df s e with
+    | some s' => runC ul df s' es
+    | none => none
+
+/-- the source's order of operations, with or without the closed flag as the source has it -/
+def stepGen := if createRefusedAfterHandler then stepC createUnderLock dropBeforeSummary else step createUnderLock dropBeforeSummary
+def runGen := if createRefusedAfterHandler then runC createUnderLock dropBeforeSummary else run createUnderLock dropBeforeSummary
 
 /-- files left behind -/
 def leftovers (s : St) : Nat := (s.onDisk.filter id).length
